@@ -248,7 +248,7 @@ def run_case(case):
         ex = max(float(np.max(np.abs(xend[n] - xe[n]))) for n in xe)
         errs_x.append(ex)
         errs_q.append(abs(q - qe))
-    floor = 5e-11 * scale
+    floor = 2e-9 * scale      # reference flow (rtol 1e-12), Newton residuals and round-off: nothing can be measured below
     res["sample"] = {"method": tag, "grid": m["grid"], "N": m["N"], "M": Ms, "state_errors": C.short(errs_x),
                      "integral_errors": C.short(errs_q), "classical_order": order}
     if order is None:
